@@ -298,3 +298,137 @@ _c08_base = contracts
 
 def contracts():
     return _c08_base() + [syncing_contract()]
+
+
+# ---------------------------------------------------------------------------------------------
+# Parameters.update — which links the `with obj.param.update(...)` context re-establishes on exit
+# ---------------------------------------------------------------------------------------------
+UPDATE_CTX_REPLAY = '''import sys, os
+sys.path.insert(0, os.environ.get('PYVC_REPO', '/repo'))
+import param
+bad = []
+class S(param.Parameterized):
+    a = param.Number(1)
+class T(param.Parameterized):
+    x = param.Number(0, allow_refs=True)
+    z = param.Number(0)
+calls = {'kw': lambda t: t.param.update(x=50), 'dict': lambda t: t.param.update({'x': 50}),
+         'dict+kw (link in kw)': lambda t: t.param.update({'z': 1}, x=50), 'dict+kw (link in dict)': lambda t: t.param.update({'x': 50}, z=1),
+         'pairs+kw': lambda t: t.param.update([('z', 1)], x=50)}
+for label, call in calls.items():
+    s = S(); t = T(x=s.param.a)
+    with call(t):
+        inside = t.x
+    s.a = 7
+    if inside != 50:
+        bad.append('%s: inside the block x == %r' % (label, inside))
+    if t.x != 7:
+        bad.append('%s: after the block x no longer follows its source (x == %r, source == 7)' % (label, t.x))
+if bad:
+    print('REPRODUCED: C08 an update context does not re-establish the link it overrode:')
+    for b in bad:
+        print('  ', b)
+    sys.exit(1)
+print('NOT-REPRODUCED'); sys.exit(0)
+'''
+
+
+def update_refs_contract(with_arg):
+    """`Parameters.update(arg?, **kwargs)` on an instance with ARBITRARY link tables: the restorer it
+    returns is handed, for every name updated (positional mapping and keywords alike) that is linked, the
+    reference it was linked to — which `_ParametersRestorer.__exit__` assigns again."""
+    from pyvc.loops import LoopSpec
+    holder = {}
+
+    def configure(I):
+        def update_(I, st, fv, args, kwargs, ctx):
+            return [(st, Sym(I.U.fresh("restore_pairs")))]
+        I.contracts["Parameters._update"] = update_
+
+        def new_dict(I, st, fv, args, kwargs, ctx):
+            sk = kwargs.get("$symbolic_kwargs")
+            if len(args) == 1 and isinstance(args[0], Ref) and isinstance(sk, Ref):
+                a, b = st.heap[args[0].oid], st.heap[sk.oid]
+                uk = I.U.fresh_seq("updated_names")
+                uv = z3.Const("updated_values", z3.ArraySort(vm.V, vm.V))
+                u = z3.Unit(holder["k"])
+                st.pc.append(z3.Contains(uk, u) == z3.Or(z3.Contains(a.keys, u), z3.Contains(b.keys, u)))
+                return [(st, I.alloc_dict(st, keys=uk, vals=uv))]
+            if len(args) == 1 and isinstance(args[0], Sym) and not kwargs:
+                return [(st, I.alloc_dict(st, keys=I.U.fresh_seq("restore_names"), vals=z3.Const("restore_values", z3.ArraySort(vm.V, vm.V))))]
+            from pyvc import builtins_lib as bl
+            return bl.h_dict(I, st, fv, args, kwargs, ctx)
+        I.lib["new:dict"] = new_dict
+
+        def restorer(I, st, fv, args, kwargs, ctx):
+            st.ghost["restorer_refs"] = kwargs.get("refs")
+            return [(st, Sym(I.U.fresh("restorer")))]
+        I.lib["new:_ParametersRestorer"] = restorer
+
+    def setup(I, st):
+        U = I.U
+        W = dm.World(I, st, initialized=Conc(True))
+        ph = st.heap[W.private.oid]
+        R = I.alloc_dict(st, keys=U.fresh_seq("linked_names"), vals=z3.Const("links", z3.ArraySort(vm.V, vm.V)))
+        A = I.alloc_dict(st, keys=U.fresh_seq("async_linked_names"), vals=z3.Const("async_links", z3.ArraySort(vm.V, vm.V)))
+        ph.fields["refs"], ph.fields["async_refs"] = R, A
+        k = U.fresh("some_name")
+        st.pc.append(vm.ty(k) == vm.TAG["str"])
+        kw = I.alloc_dict(st, keys=U.fresh_seq("keyword_names"), vals=z3.Const("keyword_values", z3.ArraySort(vm.V, vm.V)))
+        holder.update({"k": k, "R": R, "A": A})
+        fv = I.bound_method(W.param, I.src.find_method("Parameters", "update"))
+        args = []
+        given = z3.Contains(st.heap[kw.oid].keys, z3.Unit(k))
+        if with_arg:
+            arg = I.alloc_dict(st, keys=U.fresh_seq("mapping_names"), vals=z3.Const("mapping_values", z3.ArraySort(vm.V, vm.V)))
+            args = [arg]
+            given = z3.Or(given, z3.Contains(st.heap[arg.oid].keys, z3.Unit(k)))
+        return fv, args, {"$symbolic_kwargs": kw}, {"given": given, "symbols": {}}
+
+    def refs_of(st):
+        r = st.env.get("refs")
+        if not (isinstance(r, Ref) and st.heap[r.oid].kind == "dict"):
+            raise OutOfReach("`refs` is no longer one dict filled in place")
+        return st.heap[r.oid]
+
+    def expected(I, st, h, on):
+        k = holder["k"]
+        R, A = st.heap[holder["R"].oid], st.heap[holder["A"].oid]
+        inR, inA = z3.Contains(R.keys, z3.Unit(k)), z3.Contains(A.keys, z3.Unit(k))
+        has = z3.Contains(h.keys, z3.Unit(k))
+        return z3.And(has == z3.And(on, z3.Or(inR, inA)),
+                      z3.Implies(has, z3.Select(h.vals, k) == z3.If(inR, z3.Select(R.vals, k), z3.Select(A.vals, k))))
+
+    def inv(I, st, pre):
+        return expected(I, st, refs_of(st), z3.Contains(pre.seq, z3.Unit(holder["k"])))
+
+    def havoc(I, st):
+        h = refs_of(st)
+        h.keys = I.U.fresh_seq("restored_link_names")
+        h.vals = z3.Const("restored_links!%d" % I.new_oid(), z3.ArraySort(vm.V, vm.V))
+        h.ckeys = None
+        h.fields.pop("$entries", None)
+        for f in [f for f in h.fields if isinstance(f, tuple)]:
+            h.fields.pop(f)
+
+    def post(I, info, st, oc):
+        if isinstance(oc, Raise):
+            return [("does-not-raise", z3.BoolVal(False))]
+        r = st.ghost.get("restorer_refs")
+        if not (isinstance(r, Ref) and st.heap[r.oid].kind == "dict"):
+            return [("the restorer is handed the links to re-establish", z3.BoolVal(False))]
+        return [("the restorer is handed the reference of every updated name that is linked — positional mapping and keywords alike",
+                 expected(I, st, st.heap[r.oid], info["given"]))]
+    loops = {("Parameters.update", "params"): LoopSpec("params", inv=inv, heap=havoc, name="links-of-the-updated-names")}
+    c = FunctionContract("%s:Parameters.update" % MOD, PROP, setup, post, configure=configure, loops=loops,
+                         name="Parameters.update[%s]" % ("mapping + keywords" if with_arg else "keywords"))
+    c.static_replay = UPDATE_CTX_REPLAY
+    c.static_witness = "update contexts called with keywords, a mapping, pairs, and both mixed, overriding a linked parameter"
+    return c
+
+
+_c08_base2 = contracts
+
+
+def contracts():
+    return _c08_base2() + [update_refs_contract(False), update_refs_contract(True)]
